@@ -137,20 +137,38 @@ Fixpoint ps_six (v : ps_value) {struct v} : bool :=
   | _ => true
   end.
 
-Lemma ps_six_codec v : ps_six v = true -> ps_writer_codec v = v.
+Lemma ps_six_codec v : ps_six v = true -> ps_writer_codec_m false v = v.
 Proof.
   induction v using ps_value_ind'; intros Hs; try reflexivity; try discriminate.
   - cbn [ps_six] in Hs. apply andb_true_iff in Hs. destruct Hs as [Hk Hn].
-    cbn [ps_writer_codec]. unfold ps_emit_num. rewrite Hk.
+    cbn [ps_writer_codec_m]. unfold ps_emit_num. rewrite Hk.
     destruct (ps_norm_num 6 m k) as [m2 k2]. cbv beta iota in Hn. apply andb_true_iff in Hn. destruct Hn as [Hm Hk2].
     apply Z.eqb_eq in Hm. apply N.eqb_eq in Hk2. subst. reflexivity.
-  - cbn in Hs. cbn [ps_writer_codec]. f_equal.
+  - cbn in Hs. cbn [ps_writer_codec_m]. f_equal.
     induction H as [|x l Hx Hl IH]; [reflexivity|]. cbn in Hs. apply andb_true_iff in Hs. destruct Hs as [H1 H2].
     cbn. rewrite (Hx H1), (IH H2). reflexivity.
-  - cbn [ps_writer_codec]. f_equal. cbn in Hs.
+  - cbn [ps_writer_codec_m]. f_equal. cbn in Hs.
     induction H as [|[k x] d Hx Hd IH]; [reflexivity|]. apply andb_true_iff in Hs. destruct Hs as [H1 H2].
     cbn in Hx. rewrite (Hx H1). f_equal. apply IH. exact H2.
 Qed.
+
+(* the round-trip form of the writer returns every value unchanged *)
+Lemma ps_codec_rt_id v : ps_writer_codec_m true v = v.
+Proof.
+  induction v using ps_value_ind'; try reflexivity.
+  - cbn [ps_writer_codec_m]. f_equal.
+    induction H as [|x l Hx Hl IH]; [reflexivity|]. cbn. rewrite Hx, IH. reflexivity.
+  - cbn [ps_writer_codec_m]. f_equal.
+    induction H as [|[k x] d Hx Hd IH]; [reflexivity|]. cbn in Hx. rewrite Hx. f_equal. exact IH.
+Qed.
+
+(* the source has the round-trip form (regenerated fact; stops compiling when EmitNumber changes shape) *)
+Lemma ps_number_roundtrip_true : ps_src_number_roundtrip = true.
+Proof. reflexivity. Qed.
+
+(* hence the writer premise of ps_top_ok / ps_listed_ok holds for EVERY value *)
+Lemma ps_codec_id v : ps_writer_codec v = v.
+Proof. unfold ps_writer_codec. rewrite ps_number_roundtrip_true. apply ps_codec_rt_id. Qed.
 
 Example ps_six_examples :
   ps_six (PsDict [([97], PsNum 123456 6); ([98], PsArr [PsNum 300 0; PsStr [120]; PsNum (-25) 1])]) = true /\
